@@ -98,6 +98,10 @@ def view_ops(n, size):
         for b in range(a, size + 1):
             ops.append(f"range i{a} x{b} " + "F" * (b - a + 1))
             ops.append(f"range_mut i{a} x{b} " + "B" * (b - a + 1))
+    # the two bounds whose `+ 1` leaves the machine word (seeded changes C07-I / C08-I / C11-B: `wrapping_add`,
+    # `saturating_add` in `translate_range_bounds` — wrong for exactly these)
+    ops += [f"range x{MAX} u F", f"range_mut x{MAX} u F", f"range u i{MAX} F", f"range_mut u i{MAX} F",
+            f"range i{MAX} u F", f"range u x{MAX} F"]
     return ops
 
 
